@@ -331,6 +331,9 @@ def foreign_labels(repo, rep, rule):
 
 
 def run(repo, rep, tier):
+    rep.rule("R-C05-w1", "no direction bin width is derived from the extent max(dir) - min(dir) of the axis (a sector straddling north has extent ~360)")
+    from .round7b import extent_width
+    extent_width(repo, rep, "R-C05-w1")
     rep.rule("R-C05-11", "(shared with C02) the peak direction is the stored coordinate at the arg-max of the spectrum AS STORED: an index found on a re-sorted copy is "
                          "not applied to the caller-ordered labels")
     from .c02 import peak_direction as _pd
